@@ -40,4 +40,44 @@ def percent_s_roundtrip_statement : Prop :=
     let text := render (fun _ _ => []) (formatSegs (ofString "%s") al t 0).val.1 (formatSegs (ofString "%s") al t 0).val.2
     (parse (fun _ _ _ => none) (ofString "%s") text z').val.1 = .ok t 0
 
+/-! ## Proofs -/
+
+theorem int_roundtrip : int_roundtrip_statement := by
+  intro v rest hv hrest
+  exact Pa.parseInt64_format64 v rest hv hrest
+
+example : inI64 i64min ∧ isDigit ((ofString " UTC").headD 0) = false := by decide +kernel
+example : parseInt64 (format64 0 i64min ++ ofString " UTC") 0 i64min i64max = some (ofString " UTC", i64min) := by
+  decide +kernel
+
+theorem field2_roundtrip : field2_roundtrip_statement := by
+  intro v lo hi rest h0 h1 h2 h3 _
+  exact Pa.parseInt32_format02d v lo hi rest h0 h1 h2 h3
+
+example : parseInt32 ((format02d 7).val ++ ofString "5") 2 1 12 = some (ofString "5", 7) := by decide +kernel
+
+theorem offset_roundtrip : offset_roundtrip_statement := by
+  intro off rest h1 h2 _
+  exact Rt.parseOffset_formatOffset off rest h1 h2
+
+example : parseOffset ((formatOffset (-86399) [58, 42]).val ++ ofString "x") 58 = some (ofString "x", -86399) := by
+  decide +kernel
+
+theorem offset_24h_counterexample : offset_24h_counterexample_statement := by
+  unfold offset_24h_counterexample_statement
+  decide +kernel
+
+theorem fraction_roundtrip : fraction_roundtrip_statement := by
+  intro fs rest h0 h1 hrest
+  exact Rt.parseSubSeconds_fracStar fs rest h0 h1 hrest
+
+example : parseSubSeconds (fracStar 120000000000000 ++ ofString "Z") = some (ofString "Z", 120000000000000) := by
+  decide +kernel
+
+theorem percent_s_roundtrip : percent_s_roundtrip_statement := by
+  intro z z' h t ht
+  exact Rt.percent_s_roundtrip _ _ _ z' t 0 ht
+
+example : inI64 i64min ∧ inI64 1709251200 := by decide
+
 end Cctz.C07
